@@ -338,6 +338,9 @@ def dispatch_table(sm: SourceModel, fi: FuncInfo):
                 continue
             chosen = (node.orelse, node.orelse[0].lineno if node.orelse else None)
             break
+        if not chosen[0] and fi.node.body[-1] is not chain:
+            # the class falls through the chain and the function goes on: the dispatch is not (only) this chain
+            raise AnalysisError(f"{fi.qualname}: {c} falls through the type-dispatch chain and statements follow it at {fi.loc()}")
         table[c] = chosen
     return table
 
